@@ -38,6 +38,8 @@ impl ImmutableLeafs {
                 &&& selected@.disjoint(final(candidates)@)
                 &&& leafs.ids() == selected@
                 &&& (old(candidates)@.len() > 0 ==> selected@.len() > 0)
+                // the memory budget never stops the selection before 200 items: either everything was taken or at least 200 items were
+                &&& (final(candidates)@ == Set::<u32>::empty() || selected@.len() >= 200)
                 &&& (forall|a: u32, b: u32| selected@.contains(a) && final(candidates)@.contains(b) ==> a < b)
             }),
             r matches Err(e) ==> e is Heed,
